@@ -113,3 +113,26 @@ def arbitrary_json():
     keys = st.one_of(st.sampled_from(['.tag', 'other', 'name', 'value', 'x']), st.text(max_size=4))
     return st.recursive(leaves, lambda ch: st.one_of(st.lists(ch, max_size=3),
                                                      st.dictionaries(keys, ch, max_size=3)), max_leaves=8)
+
+
+def single_key_edits(j):
+    """Every document that differs from j by one key of one object: the key dropped, renamed, or
+    set to null (deterministic order)."""
+    out = []
+    for dp in paths(j):
+        d = get(j, dp)
+        if not isinstance(d, dict):
+            continue
+        for k in d:
+            for op in ('drop_key', 'rename_key', 'null_key'):
+                nd = copy.deepcopy(d)
+                if op == 'drop_key':
+                    del nd[k]
+                elif op == 'rename_key':
+                    nd[k + '_x'] = nd.pop(k)
+                else:
+                    if nd[k] is None:
+                        continue
+                    nd[k] = None
+                out.append((op + ':sweep', put(j, dp, nd)))
+    return out
